@@ -119,4 +119,121 @@ FixedVerdict(y, nd, lam, out, hasP, p, hints, hinted) ==
                  ELSE IF ~InInt16(r[3]) THEN <<"SKIP", "curve-leaves-int16", "">>
                  ELSE IF BandOK(out, r[3]) THEN <<"ACCEPT", "", "">>
                  ELSE <<"REJECT", "RoundedExpectile", ToString(FirstBad(out, r[3]))>>
+
+----------------------------------------------------------------------------
+(* V-CURVE (C04).  grid: sequence of log10-lambda values (rationals);       *)
+(* curves[i]: the exact curve at grid value i.                              *)
+Lam(g) == RPow10(g)
+FitOf(y, wts, z) == P!WRSS(y, z, [j \in 1..Len(wts) |-> RSq(wts[j])])      \* sum (w (y - z))^2
+PenOf(z) == P!Roughness(z)
+\* ordinate i (between grid values i and i+1); all logs through RLn (ranking only)
+VOrd(fits, pens, grid, i) ==
+    LET df == RSub(RLn(fits[i + 1]), RLn(fits[i]))
+        dp == RSub(RLn(pens[i + 1]), RLn(pens[i]))
+    IN  RDiv(RSqrt(RAdd(RSq(df), RSq(dp))), RMul(RLn("10"), RSub(grid[2], grid[1])))
+Mid(grid, i) == RDiv(RAdd(grid[i], grid[i + 1]), "2")
+NearLog(a, b) == RLe(RAbs(RSub(a, b)), "1/1000000000")            \* two log10-lambda values agree
+\* index of the midpoint the reported lambda sits on (0 if none)
+MidIndex(grid, lopt) ==
+    LET lg == RLog10(lopt)
+        S == {i \in 1..(Len(grid) - 1) : NearLog(lg, Mid(grid, i))}
+    IN  IF S = {} THEN 0 ELSE CHOOSE i \in S : TRUE
+\* through the accessor lambda is visible only as sgrid = float32(log10 lambda): snap it to the
+\* midpoint (resp. grid value) it denotes; "0" stays, anything else that fits no point is returned as is
+Near32(a, b) == RLe(RAbs(RSub(a, b)), RMul(RMax("1", RAbs(b)), "1/2000000"))
+SnapMid(grid, sg) == LET S == {i \in 1..(Len(grid) - 1) : Near32(sg, Mid(grid, i))} IN
+                     IF S = {} THEN RPow10(sg) ELSE Lam(Mid(grid, CHOOSE i \in S : TRUE))
+SnapGrid(grid, sg) == LET S == {i \in 1..Len(grid) : Near32(sg, grid[i])} IN
+                      IF S = {} THEN RPow10(sg) ELSE Lam(grid[CHOOSE i \in S : TRUE])
+RECURSIVE MinOrd(_, _, _)
+MinOrd(v, i, best) == IF i > Len(v) THEN best ELSE MinOrd(v, i + 1, RMin(best, v[i]))
+TieBand == "1000001/1000000"
+\* curves for the symmetric V-curve: plain PLS at every grid value
+PlsCurves(y, wts, grid) == [i \in 1..Len(grid) |-> Solve(y, wts, Lam(grid[i]))]
+\* curves for the asymmetric V-curve: expectile fixed points certified from the logged final
+\* envelope pattern of each grid value (pats[i]); "" when the pattern is not a fixed point
+FixedPoint(y, wts, lam, p, pat) ==
+    LET z == Solve(y, AsymW(wts, pat, p), lam) IN IF HintOK(y, z, wts, pat) THEN z ELSE <<>>
+ExpCurves(y, wts, grid, p, pats) == [i \in 1..Len(grid) |-> FixedPoint(y, wts, Lam(grid[i]), p, pats[i])]
+
+\* result <<kind, clause, detail>> for the selection part
+VSelect(y, wts, grid, curves, lopt) ==
+    IF \E i \in 1..Len(curves) : curves[i] = <<>> THEN <<"SKIP", "sweep-not-converged-at-some-grid-value", "">>
+    ELSE LET fits == [i \in 1..Len(grid) |-> FitOf(y, wts, curves[i])]
+             pens == [i \in 1..Len(grid) |-> PenOf(curves[i])]
+         IN  IF \E i \in 1..Len(grid) : fits[i] = "0" \/ pens[i] = "0" \/ RLt(RDiv(fits[i], RMax("1", FitOf(y, wts, Zeros(Len(y))))), "1/1000000000000")
+             THEN <<"SKIP", "degenerate-criterion", "">>
+             ELSE LET kk == MidIndex(grid, lopt) IN
+                  IF kk = 0 THEN <<"REJECT", "Midpoint", RShow(RLog10(lopt))>>
+                  ELSE LET v == [i \in 1..(Len(grid) - 1) |-> VOrd(fits, pens, grid, i)]
+                           mn == MinOrd(v, 2, v[1]) IN
+                       IF RLe(v[kk], RMul(mn, TieBand)) THEN <<"ACCEPT", "", ToString(kk)>>
+                       ELSE <<"REJECT", "VMin", ToString(kk)>>
+
+\* uniform ascending grid?
+UniformGrid(grid) == /\ Len(grid) >= 2 /\ RLt(grid[1], grid[2])
+                     /\ \A i \in 1..(Len(grid) - 1) : NearLog(RSub(grid[i + 1], grid[i]), RSub(grid[2], grid[1]))
+\* the grid the autocorrelation variant must use: -2..1.0 step 0.2 where lc > 0.5, 0..3.0 elsewhere (NaN included)
+LcGrid(lc) == IF lc # "nan" /\ RLt("1/2", lc) THEN [i \in 1..16 |-> RDiv(RInt(i - 11), "5")]
+              ELSE [i \in 1..16 |-> RDiv(RInt(i - 1), "5")]
+
+\* whole V-curve verdict.  variant \in {"v", "vp", "vplc"}; pats: per grid value the final envelope
+\* pattern logged from the source (vp, vplc); fhints: passes of the final fit (as for FixedVerdict)
+VCurveVerdict(variant, y, nd, grid0, lc, hasP, p, out, lopt, pats, fhints, hinted, swept) ==
+    LET wts == Weights(y, nd, "eq")
+        nv  == NValid(y, nd, "eq")
+        grid == IF variant = "vplc" THEN LcGrid(lc) ELSE grid0
+    IN  IF nv <= 1 THEN
+            (IF lopt = "0" /\ PassThroughOK(out, y) THEN <<"ACCEPT", "", "passthrough">> ELSE <<"REJECT", "PassThrough", "">>)
+        ELSE IF Len(y) < 4 \/ ~UniformGrid(grid) \/ ~AllNum(y, wts) THEN <<"SKIP", "outside-contract", "">>
+        ELSE IF ~IsNum(lopt) \/ ~RLt("0", lopt) THEN <<"REJECT", "Midpoint", "lambda not positive">>
+        \* the autocorrelation variant must sweep the grid its lc selects (the sweep is logged from the source)
+        ELSE IF variant = "vplc" /\ hinted /\ swept # <<>> /\
+                (Len(swept) # Len(grid) \/ \E i \in 1..Len(grid) : ~NearLog(swept[i], grid[i])) THEN <<"REJECT", "GridByLc", ToString(Len(swept))>>
+        ELSE IF hasP /\ Len(pats) # Len(grid) THEN <<"SKIP", "no-sweep-patterns-logged", "">>
+        ELSE LET yc == Clean(y, wts)
+                 curves == IF hasP THEN ExpCurves(yc, wts, grid, p, pats) ELSE PlsCurves(yc, wts, grid)
+                 sel == VSelect(yc, wts, grid, curves, lopt)
+                 band == FixedVerdict(y, nd, lopt, out, hasP, p, fhints, hinted)
+             IN  IF sel[1] = "REJECT" THEN sel
+                 ELSE IF band[1] = "REJECT" THEN <<"REJECT", "BandIsFixed:" \o band[2], band[3]>>
+                 ELSE IF sel[1] = "SKIP" THEN sel
+                 ELSE IF band[1] = "SKIP" THEN band
+                 ELSE sel
+\* sgrid of the accessor: log10(lopt) as float32
+Sgrid32OK(sg, lopt) == IF lopt = "0" THEN sg = "-inf" ELSE IsNum(sg) /\ RLe(RAbs(RSub(sg, RLog10(lopt))), RMul(RMax("1", RAbs(RLog10(lopt))), "1/4194304"))
+
+----------------------------------------------------------------------------
+(* GCV (C05) *)
+\* eigenvalues used by the kernels: e_0 = 1e-15, e_i = -2 + 2 cos(i pi / m), i = 1..m-1
+PiR == "884279719003555/281474976710656"
+Eig(i, m) == IF i = 0 THEN "1/1000000000000000" ELSE RAdd("-2", RMul("2", RCos(RDiv(RMul(RInt(i), PiR), RInt(m)))))
+GcvScore(y, wts, lam, z) ==
+    LET m == Len(y)
+        T(j) == RDiv(wts[j], RAdd(wts[j], RMul(lam, RSq(Eig(j - 1, m)))))
+        trH == P!FSum(T, 1, m)
+        nw == P!FSum(LAMBDA j : wts[j], 1, m)
+    IN  RDiv(P!WRSS(y, z, wts), RMul(nw, RSq(RSub("1", RDiv(trH, nw)))))
+GridIndex(grid, lopt) ==
+    LET lg == RLog10(lopt)  S == {i \in 1..Len(grid) : NearLog(lg, grid[i])} IN IF S = {} THEN 0 ELSE CHOOSE i \in S : TRUE
+
+GcvVerdict(y, nd, grid, robust, hasP, p, out, lopt, fhints, hinted) ==
+    LET wts == Weights(y, nd, "full")
+        nv  == NValid(y, nd, "full")
+    IN  IF nv <= 4 THEN
+            (IF lopt = "0" /\ PassThroughOK(out, y) THEN <<"ACCEPT", "", "passthrough">> ELSE <<"REJECT", "PassThrough", "">>)
+        ELSE IF Len(grid) < 1 THEN <<"SKIP", "outside-contract", "">>
+        ELSE IF ~IsNum(lopt) \/ ~RLt("0", lopt) THEN <<"REJECT", "InGrid", "lambda not positive">>
+        ELSE IF GridIndex(grid, lopt) = 0 THEN <<"REJECT", "InGrid", RShow(RLog10(lopt))>>
+        ELSE IF robust THEN <<"ACCEPT", "", "robust: grid membership only (see the linked clauses)">>
+        ELSE LET yc == Clean(y, wts)
+                 sc == [i \in 1..Len(grid) |-> GcvScore(yc, wts, Lam(grid[i]), Solve(yc, wts, Lam(grid[i])))]
+                 mn == MinOrd(sc, 2, sc[1])
+                 kk == GridIndex(grid, lopt)
+                 band == FixedVerdict(y, nd, lopt, out, hasP, p, fhints, hinted)
+             IN  IF RLt(RDiv(P!WRSS(yc, Solve(yc, wts, Lam(grid[1])), wts), RMax("1", P!WRSS(yc, Zeros(Len(y)), wts))), "1/1000000000000")
+                 THEN <<"SKIP", "degenerate-criterion", "">>
+                 ELSE IF ~RLe(sc[kk], RMul(mn, TieBand)) THEN <<"REJECT", "GcvMin", ToString(kk)>>
+                 ELSE IF band[1] = "REJECT" THEN <<"REJECT", "BandIsFixed:" \o band[2], band[3]>>
+                 ELSE band
 =============================================================================
